@@ -21,53 +21,81 @@ variable {α : Type}
 
 /-- one step preserves the shape invariant -/
 theorem C01_step_inv (e : HEnv) (he : e.ok) (t : TD α) (h : t.Inv) (op : HOp α) (hop : op.wf) :
-    (hstep e t op).Inv := by
-  sorry
+    (hstep e t op).Inv :=
+  hs_step_inv e he t h op hop
 
 /-- every reachable state satisfies the shape invariant -/
 theorem C01_history_inv (e : HEnv) (he : e.ok) (t : TD α) (h : t.Inv) (ops : List (HOp α)) (hops : ∀ op ∈ ops, op.wf) :
     (hrun e t ops).Inv := by
-  sorry
+  induction ops generalizing t with
+  | nil => exact h
+  | cons op ops ih =>
+    show (hrun e (hstep e t op) ops).Inv
+    exact ih _ (C01_step_inv e he t h op (hops op (List.mem_cons_self ..)))
+      (fun o ho => hops o (List.mem_cons_of_mem _ ho))
 
 /-- … in particular starting from `default()` / `with_capacity(n)` -/
 theorem C01_history_from_default (e : HEnv) (he : e.ok) (ops : List (HOp α)) (hops : ∀ op ∈ ops, op.wf) :
-    (hrun e (TD.default : TD α) ops).Inv := by
-  sorry
+    (hrun e (TD.default : TD α) ops).Inv :=
+  C01_history_inv e he _ C20_default.1 ops hops
 
 /-- no safe call ends in undefined behaviour (or exhausts a fuelled loop of the model), whatever its arguments -/
 theorem C01_no_ub (e : HEnv) (he : e.ok) (t : TD α) (h : t.Inv) (op : HOp α) (hop : op.wf) :
-    hres e t op ≠ .error .ub ∧ hres e t op ≠ .error .fuel := by
-  sorry
+    hres e t op ≠ .error .ub ∧ hres e t op ≠ .error .fuel :=
+  hs_step_res e he t h op hop
 
 /-- … along any history -/
 theorem C01_history_no_ub (e : HEnv) (he : e.ok) (t : TD α) (h : t.Inv) (ops pre : List (HOp α)) (op : HOp α)
     (hops : ∀ o ∈ ops, o.wf) (hpre : pre ++ [op] <+: ops) :
     hres e (hrun e t pre) op ≠ .error .ub ∧ hres e (hrun e t pre) op ≠ .error .fuel := by
-  sorry
+  have hsub : ∀ o ∈ pre ++ [op], o.wf := fun o ho => hops o (hpre.subset ho)
+  have hinv := C01_history_inv e he t h pre (fun o ho => hsub o (List.mem_append_left _ ho))
+  exact C01_no_ub e he _ hinv op (hsub op (List.mem_append_right _ (List.mem_singleton_self op)))
 
 /-- the lengths reported by the three iterator families agree with the dimensions -/
 theorem C01_lens (m : Mode) (t : TD α) (h : t.Inv) :
     t.rows.sizeHint m = .ok t.numRows ∧
     (Flat.new t.rows).sizeHint m = .ok (t.numCols * t.numRows) ∧
     ∀ c, c < t.numCols → ∃ it, t.col m c = .ok it ∧ it.sizeHint m = .ok t.numRows := by
-  sorry
+  refine ⟨C08_len m _ _ _ (C08_rows_owned t h).1, ?_, ?_⟩
+  · obtain ⟨hwf, habs, _⟩ := C10_cells_owned t h
+    rw [C10_len m _ _ _ hwf, habs, List.length_range, h.len]
+  · intro c hc
+    have hcw := h.cols_word
+    obtain ⟨it, e, hwf, _⟩ := (C09_col_owned m t h c (by omega)).1 hc
+    exact ⟨it, e, C09_len m it _ _ hwf⟩
 
 /-- one step agrees with the rows-of-cells model wherever that model prescribes the result -/
 theorem C01_step_refines (e : HEnv) (he : e.ok) (t : TD α) (h : t.Inv) (op : HOp α) (hop : op.wf) (hfit : op.fits e t)
     (g' : List (List α)) (hg : gstep t.grid op = some g') :
-    (hstep e t op).grid = g' := by
-  sorry
+    (hstep e t op).grid = g' :=
+  hs_step_refines e he t h op hop hfit g' hg
 
 /-- **the array and the plain model stay in step along any history** -/
 theorem C01_history_refines (e : HEnv) (he : e.ok) (t : TD α) (h : t.Inv) (ops : List (HOp α))
     (hops : ∀ op ∈ ops, op.wf) (hf : hfits e t ops) (g' : List (List α)) (hg : grun t.grid ops = some g') :
     (hrun e t ops).grid = g' := by
-  sorry
+  induction ops generalizing t with
+  | nil =>
+    injection hg with hg
+  | cons op ops ih =>
+    have hop := hops op (List.mem_cons_self ..)
+    obtain ⟨_, hfo, hfr⟩ := hf
+    show (hrun e (hstep e t op) ops).grid = g'
+    have hg2 : (gstep t.grid op).bind (fun g1 => grun g1 ops) = some g' := hg
+    cases hs : gstep t.grid op with
+    | none => rw [hs] at hg2; cases hg2
+    | some g1 =>
+      rw [hs] at hg2
+      have h1 := C01_step_refines e he t h op hop hfo g1 hs
+      refine ih (hstep e t op) (C01_step_inv e he t h op hop) (fun o ho => hops o (List.mem_cons_of_mem _ ho)) hfr ?_
+      rw [h1]
+      exact hg2
 
 /-- the grid determines the array (so "same grid" is "same observable content"): dimensions and data can be read off it -/
 theorem C01_grid_faithful (t : TD α) (h : t.Inv) :
-    t.numRows = t.grid.length ∧ t.numCols = gcols t.grid ∧ t.data = t.grid.flatten := by
-  sorry
+    t.numRows = t.grid.length ∧ t.numCols = gcols t.grid ∧ t.data = t.grid.flatten :=
+  ⟨h.grid_length.symm, (hs_headC t h).symm, h.data_eq_flatten_grid⟩
 
 /-- non-vacuity: a concrete history (insert a row into the empty array, push a column, sort by row 0 descending, remove column 0
     pulling one item from the back, leak a row drain) runs through the Impl-model and the plain model to the same grid -/
@@ -78,6 +106,43 @@ example :
        .insertCol 3 (honest [8, 4]) [0, 0], .inplace (.sortRow (sideStable fun a b => decide (b ≤ a)) 0),
        .removeCol 0 [false], .removeRowLeak 1 []]
     (hrun e TD.default ops).grid = [[7, 6, 5]] ∧ grun [] ops = some [[7, 6, 5]] ∧ hfits e TD.default ops := by
-  sorry
+  intro e ops
+  have hp : stablePerm (fun a b : Nat => decide (b ≤ a)) [5, 6, 7, 8] = [3, 2, 1, 0] := by
+    simp [stablePerm, List.zipIdx, List.mergeSort, List.MergeSort.Internal.splitInTwo]
+  have h3 : hstep e (hstep e (hstep e TD.default (.insertRow 0 (honest [5, 6, 7]) [0, 0, 0]))
+      (.insertRow 1 (honest [1, 2, 3]) [0, 0, 0])) (.insertCol 3 (honest [8, 4]) [0, 0])
+      = ⟨[5, 6, 7, 8, 1, 2, 3, 4], 2, 4⟩ := by decide
+  have hinv : (⟨[5, 6, 7, 8, 1, 2, 3, 4], 2, 4⟩ : TD Nat).Inv := ⟨rfl, by decide, by decide⟩
+  have hsane : (MOp.sortRow (sideStable fun a b : Nat => decide (b ≤ a)) 0).Sane :=
+    fun keys => Or.inr ⟨_, rfl, stablePerm_perm _ keys⟩
+  have h4 : hstep e ⟨[5, 6, 7, 8, 1, 2, 3, 4], 2, 4⟩ (.inplace (.sortRow (sideStable fun a b => decide (b ≤ a)) 0))
+      = ⟨[8, 7, 6, 5, 4, 3, 2, 1], 2, 4⟩ := by
+    show TD.withData _ ((Recv.root _).run e.m e.lim _ _) = _
+    rw [hs_run_spec e.m e.lim _ hinv _ ⟨hsane, trivial⟩]
+    have hk : readWin [5, 6, 7, 8, 1, 2, 3, 4] ((⟨[5, 6, 7, 8, 1, 2, 3, 4], 2, 4⟩ : TD Nat).asView.rowWin 0) = [5, 6, 7, 8] := rfl
+    simp only [MOp.spec, sideStable, hk, hp]
+    decide
+  have g4 : gstep [[5, 6, 7, 8], [1, 2, 3, 4]] (.inplace (.sortRow (sideStable fun a b => decide (b ≤ a)) 0))
+      = some [[8, 7, 6, 5], [4, 3, 2, 1]] := by
+    have hk : ([[5, 6, 7, 8], [1, 2, 3, 4]] : List (List Nat))[0]?.getD [] = [5, 6, 7, 8] := rfl
+    simp only [gstep, gstepM, sideStable, hk, hp]
+    decide
+  refine ⟨?_, ?_, ?_⟩
+  · simp only [ops, hrun, List.foldl_cons, List.foldl_nil]
+    rw [h3, h4]
+    decide
+  · have g1 : gstep ([] : List (List Nat)) (.insertRow 0 (honest [5, 6, 7]) [0, 0, 0]) = some [[5, 6, 7]] := by decide
+    have g2 : gstep [[5, 6, 7]] (.insertRow 1 (honest [1, 2, 3]) [0, 0, 0]) = some [[5, 6, 7], [1, 2, 3]] := by decide
+    have g3 : gstep [[5, 6, 7], [1, 2, 3]] (.insertCol 3 (honest [8, 4]) [0, 0]) = some [[5, 6, 7, 8], [1, 2, 3, 4]] := by
+      decide
+    have g5 : gstep [[8, 7, 6, 5], [4, 3, 2, 1]] (.removeCol 0 [false]) = some [[7, 6, 5], [3, 2, 1]] := by decide
+    have g6 : gstep [[7, 6, 5], [3, 2, 1]] (.removeRowLeak 1 []) = some [[7, 6, 5]] := by decide
+    simp only [ops, grun, g1, g2, g3, g4, g5, g6, Option.bind_some]
+  · have h1 : hstep e TD.default (.insertRow 0 (honest [5, 6, 7]) [0, 0, 0]) = ⟨[5, 6, 7], 1, 3⟩ := by decide
+    have h2 : hstep e ⟨[5, 6, 7], 1, 3⟩ (.insertRow 1 (honest [1, 2, 3]) [0, 0, 0]) = ⟨[5, 6, 7, 1, 2, 3], 2, 3⟩ := by decide
+    have h3' : hstep e ⟨[5, 6, 7, 1, 2, 3], 2, 3⟩ (.insertCol 3 (honest [8, 4]) [0, 0]) = ⟨[5, 6, 7, 8, 1, 2, 3, 4], 2, 4⟩ := by
+      decide
+    simp only [ops, hfits, HOp.spareOk, HOp.fits, h1, h2, h3']
+    decide
 
 end Toodee
